@@ -33,7 +33,8 @@ SPEC = dict(
               "Stack (<= 3 members), m in 1..3; diff: every program with 1 op (all 13 ops) on the 83 assignments up to renaming of the "
               "leaves (non-decreasing shape tuples; operand orders and input listing orders are enumerated anyway), programs with 2 ops "
               "(ops sin, mul, sum, idx0, detach) on 4 scenario assignments (three with 3-d/4-d keys), all <= 2 output tensors in both orders, plus 1-op programs with a leaf as one of two outputs; chain: programs with 2 "
-              "ops whose first result is a cut set; stackgrad: 2-op 2-output programs (ops mul, sum) on 2 scenarios (one 4-d)",
+              "ops whose first result is a cut set; stackgrad: 2-op 2-output programs (ops mul, sum) on 2 scenarios (one 4-d); "
+              "cotangent alphabets include the all-zero cotangent; Jac over a vmap-hostile Function with one-row chunks; non-contiguous (column-major) keys",
         thorough="1-op programs on all 258 ordered assignments; diff/chain with all 13 ops at depth 2 on the 7 scenarios; chain additionally with 3 ops (ops sin, mul, sum, unbind); "
                  "stackgrad with ops mul, sum, sin on 3 scenarios",
     ),
